@@ -165,7 +165,7 @@ package netceptor
 //@   site call dispatchReservedService RSV: [C12] requires fwaccept(acqof("firewallLock", fwdec(s, md))) && md.ToNode == s.nodeID
 //@   site call sendUnreachable NOTICE: [C12 C16] requires arg1 == md.FromNode && echoes(arg2, md) && md.FromService != "unreach" &&
 //@        ( (acqof("firewallLock", fwdec(s, md)) == 2 && arg2.Problem == ProblemRejected)
-//@       || (fwaccept(acqof("firewallLock", fwdec(s, md))) && md.ToNode == s.nodeID && md.FromNode != s.nodeID && arg2.Problem == ProblemServiceUnknown
+//@       || (fwaccept(acqof("firewallLock", fwdec(s, md))) && old(md.ToNode == s.nodeID) && md.FromNode != s.nodeID && arg2.Problem == ProblemServiceUnknown
 //@           && acqof("listenerLock", !(md.ToService in s.listenerRegistry) || ctxerr(s.listenerRegistry[md.ToService].context) != nil)) )
 //@   ensures ATMOSTONE: [C02] ownsends() <= 1
 //@   ensures DELIVER: [C02 C12 C16] ownsends() == 1 ==> fwaccept(acqof("firewallLock", fwdec(s, md))) && old(md.ToNode == s.nodeID)
